@@ -1,12 +1,39 @@
-// chunk `idx` of width {J.bits} of a little-endian word sequence over {I}, limited to the first `lim` bits
-pub open spec fn chunk_is_{J}(data: Seq<{I}>, lim: int, idx: int, v: {J}) -> bool {
-    forall|t: nat| t < {J.bits} ==> #[trigger] wbit_{J}(v, t) == (idx * {J.bits} + t < lim && bit_at(data, idx * {J.bits} + t))
+// chunk `idx` of width {J.bits} ({J}) of a little-endian word sequence over {I}, limited to the first `lim` bits
+pub open spec fn chunk_is_{I}_{J}(data: Seq<{I}>, lim: int, idx: int, v: {J}) -> bool {
+    forall|t: nat| t < {J.bits} ==> #[trigger] wbit{Y}(v, t) == (idx * {J.bits} + t < lim && bit_at{X}(data, idx * {J.bits} + t))
 }
-/// a J value is determined by its chunk description
-pub proof fn lemma_chunk_unique_{J}(data: Seq<{I}>, lim: int, idx: int, a: {J}, b: {J})
-    requires chunk_is_{J}(data, lim, idx, a), chunk_is_{J}(data, lim, idx, b)
+/// a {J} value is determined by its chunk description
+pub proof fn lemma_chunk_unique_{I}_{J}(data: Seq<{I}>, lim: int, idx: int, a: {J}, b: {J})
+    requires chunk_is_{I}_{J}(data, lim, idx, a), chunk_is_{I}_{J}(data, lim, idx, b)
     ensures a == b
 {
-    assert forall|j: {J}| j < {J.bits} implies wbit_{J}(a, j as nat) == wbit_{J}(b, j as nat) by { }
-    lemma_wbit_ext_{J}(a, b);
+    assert forall|j: {J}| j < {J.bits} implies wbit{Y}(a, j as nat) == wbit{Y}(b, j as nat) by { }
+    lemma_wbit_ext{Y}(a, b);
+}
+/// beyond the limit every chunk is zero
+pub proof fn lemma_empty_chunk_{I}_{J}(data: Seq<{I}>, lim: int, idx: int)
+    requires idx * {J.bits} >= lim
+    ensures chunk_is_{I}_{J}(data, lim, idx, 0{J})
+{
+    assert forall|t: nat| t < {J.bits} implies #[trigger] wbit{Y}(0{J}, t) == (idx * {J.bits} + t < lim && bit_at{X}(data, idx * {J.bits} + t)) by {
+        lemma_wbit_zero{Y}(t as {J});
+    }
+}
+/// the value of chunk idx (a total function: zero beyond the limit)
+pub open spec fn chunk_val_{I}_{J}(data: Seq<{I}>, lim: int, idx: int) -> {J} {
+    choose|c: {J}| chunk_is_{I}_{J}(data, lim, idx, c)
+}
+pub proof fn lemma_chunk_val_{I}_{J}(data: Seq<{I}>, lim: int, idx: int, c: {J})
+    requires chunk_is_{I}_{J}(data, lim, idx, c)
+    ensures chunk_val_{I}_{J}(data, lim, idx) == c, chunk_is_{I}_{J}(data, lim, idx, chunk_val_{I}_{J}(data, lim, idx))
+{
+    lemma_chunk_unique_{I}_{J}(data, lim, idx, c, chunk_val_{I}_{J}(data, lim, idx));
+}
+/// chunk_val is total: some {J} value has exactly the described bits
+pub proof fn lemma_chunk_val_ok_{I}_{J}(data: Seq<{I}>, lim: int, idx: int)
+    ensures chunk_is_{I}_{J}(data, lim, idx, chunk_val_{I}_{J}(data, lim, idx))
+{
+    let p = |t: nat| idx * {J.bits} + t < lim && bit_at{X}(data, idx * {J.bits} + t);
+    let v = lemma_bits_to_word{Y}(p, {J.bits});
+    assert(chunk_is_{I}_{J}(data, lim, idx, v));
 }
